@@ -18,6 +18,7 @@ import (
 	"fmt"
 	"math/rand"
 	"reflect"
+	"sort"
 	"strings"
 
 	"verif/internal/sup"
@@ -128,12 +129,36 @@ func countLeaves(m map[string]interface{}) (leaves, depth int) {
 	return
 }
 
+func sortedAnyKeys(m map[string]interface{}) []string {
+	ks := make([]string, 0, len(m))
+	for k := range m {
+		ks = append(ks, k)
+	}
+	sort.Strings(ks)
+	return ks
+}
+
 func runFlat(c *sup.Child, b sup.Batch) {
 	for idx := b.From; idx < b.To; idx++ {
 		rng := c.Rand(idx)
 		maxDepth := 1 + rng.Intn(4)
 		nested := genNested(rng, 0, maxDepth, 1+rng.Intn(5), idx%2 == 0)
-		desc := map[string]any{"kind": "flat", "nested": clip(fmt.Sprintf("%#v", nested), 1500)}
+		sharedSub := false
+		if idx%5 == 2 {
+			// one sub-map value stored under two keys (several sections filled from one defaults
+			// map): the value is acyclic, flattening gives one dotted key per leaf and path
+			for _, k := range sortedAnyKeys(nested) {
+				if sub, ok := nested[k].(map[string]interface{}); ok && len(sub) > 0 {
+					nested["zz_same_map_again"] = sub
+					if deeper, ok := sub[sortedAnyKeys(sub)[0]].(map[string]interface{}); ok && len(deeper) > 0 {
+						nested["zz_deeper_again"] = deeper
+					}
+					sharedSub = true
+					break
+				}
+			}
+		}
+		desc := map[string]any{"kind": "flat", "nested": clip(fmt.Sprintf("%#v", nested), 1500), "one_sub_map_under_two_keys": sharedSub}
 		c.Case(idx, desc, func(r *sup.CaseResult) {
 			wit := map[string]any{"nested": fmt.Sprintf("%#v", nested)}
 			leaves, depth := countLeaves(nested)
@@ -187,6 +212,9 @@ func runFlat(c *sup.Child, b sup.Batch) {
 				return
 			}
 			r.AddObs("flat_maps", 1)
+			if sharedSub {
+				r.AddObs("flat_maps_with_one_sub_map_under_two_keys", 1)
+			}
 			r.AddObs("flat_leaves", int64(leaves))
 			r.AddObs("flat_roundtrips_checked", 3)
 			if depth > 0 {
@@ -531,7 +559,7 @@ func main() {
 			}
 		},
 		Finish: func(t *sup.Totals) string {
-			for _, k := range []string{"flat_maps_nested", "jread_leaves_needing_decoding", "cfg_docs", "jexh_maps", "jrt_entries_needing_escapes", "write_outputs_checked", "load_ok_loads", "loads_of_more_files_than_the_loop_channels_hold", "load_keys_checked", "load_failures_reported", "load_concurrent_translate_hits", "storm_loads", "noise_yields"} {
+			for _, k := range []string{"flat_maps_nested", "flat_maps_with_one_sub_map_under_two_keys", "jread_leaves_needing_decoding", "cfg_docs", "jexh_maps", "jrt_entries_needing_escapes", "write_outputs_checked", "load_ok_loads", "loads_of_more_files_than_the_loop_channels_hold", "load_keys_checked", "load_failures_reported", "load_concurrent_translate_hits", "storm_loads", "noise_yields"} {
 				if t.Obs[k] == 0 {
 					return "monitor observed nothing for " + k
 				}
